@@ -636,6 +636,19 @@ func (a *RangeArg) Parse() error {
 		/* range-boundary [optsep ".." optsep range-boundary] */
 		var r argRb
 		rbs := strings.Split(v, "..")
+		for _, b := range rbs {
+			/* range-boundary = min / max / integer-value / decimal-value */
+			whole, frac, isDecimal := strings.Cut(b, ".")
+			if b == "min" || b == "max" {
+				continue
+			}
+			if !isIntegerValue(whole, true) {
+				return ErrInval
+			}
+			if isDecimal && (frac == "" || strings.Trim(frac, "0123456789") != "") {
+				return ErrInval
+			}
+		}
 		switch len(rbs) {
 		case 1:
 			switch rbs[0] {
